@@ -6,6 +6,13 @@
 //! and the emitted token streams are compared item by item.  Driver mode (no arguments) spawns the
 //! children; `emit <files...>` is the child mode.
 use quote::ToTokens;
+// (glob import at the crate root: the generator's `wrap_with_*_ref/_mut` arms name
+// `crate::trait_group::CGlueObjBase` literally, which only resolves when the using crate
+// re-exports cglue at its root — a compile-time wart of the generator, outside the listed properties)
+#[allow(unused_imports)]
+use cglue::*;
+#[allow(unused, clippy::all)]
+mod defs; // compiled too, so the extra definitions are known to be valid programs
 use std::collections::BTreeMap;
 use std::process::Command;
 
